@@ -1,5 +1,6 @@
 import FV.Proofs.Producers
 import FV.Proofs.ProducersDie
+import FV.Proofs.ProducersAlloc
 /-
   C19 — Every document FRAME produces is accepted back and says the same thing.
   Property theorems only (helper lemmas live in `FV/Proofs/Producers.lean`).
@@ -33,18 +34,15 @@ import FV.Proofs.ProducersDie
   `Allocation._parse_yaml_tree`).  `die_roundtrip_constructor` composes the die writer with the CONSTRUCTOR model of C01
   (`FV/Model/Die.lean`): the written document parses to the same size / blockages / specialised regions and the
   constructor (`dieCore`, `detPicks`: grid, ground regions, self-check) returns on it exactly what it returns on the
-  source.
-
-  NOT YET PROVED
-  * `alloc_roundtrip_constructor` — `mkAllocation (raw cells of the written document) = mkAllocation (raw cells of the
-    source)` for the constructor model of C02/C12 (`FV/Model/Alloc.lean`: bounding box, no-overlap, areas/centres).
-    Blocked: `FV.Model.Alloc` cannot be imported together with `FV.Model.Yaml` (both declare `FV.validIdent`; the rename
-    is pending with the C02 builder).  The statement needs nothing beyond `alloc_roundtrip` (the constructor is a function
-    of the parsed cells and the tolerance state only).
+  source.  `alloc_roundtrip_constructor` does the same with the constructor model of C02/C12 (`FV/Model/Alloc.lean`,
+  `mkAllocation`: parse, bounding box, tolerances, `_check_no_overlap`, `_calculate_areas_and_centers`): the written
+  document is accepted in the same tolerance state and yields the same cells, ratio maps, depths, caches and box.
+  NOT carried by either document: the run-time marks of a rectangle (`fixed`, `hard`, STOG location) — the re-read cells
+  are the source cells with those marks reset (`stripCell`).
 
   OUTSIDE these theorems (exercised on every sample by harness/props/c19.py, not proved):
   * the text layer (ruamel dump / safe load, `str(float)` inside the string-built netlists);
-  * the geometric checks of `Allocation.__init__` (see NOT YET PROVED) and, for a die written AFTER a refinement, that the
+  * for a die written AFTER a refinement, that the
     ground regions the constructor re-derives cover the same region as the refined ones (compared exactly by the harness;
     `die_roundtrip_constructor` says the constructor sees the same size / blockages / specialised regions);
   * the polygon decomposition of FloorSet blocks (`strop_decomposition`, property C15) and the density factor `alpha`
@@ -578,6 +576,38 @@ theorem namededges_orig_alters (e : NEdge α) (h : weightIsOne e.weight = false)
     have := congrArg List.length hc
     simp at this
 
+
+/-- the allocation writer composed with the allocation CONSTRUCTOR model of C02/C12.  For a valid allocation object
+    (`ValidAlloc`: what `mkAllocation` accepted, tolerances defined) whose cells are tagged with identifier regions, the
+    document `Allocation.write_yaml` produces translates (`rawOfTree`) to descriptors on which the full constructor —
+    parser, bounding box, `_check_no_overlap`, `_calculate_areas_and_centers` — SUCCEEDS in the same tolerance state and
+    leaves it unchanged; the object it builds has the same cells, ratio maps and depths (the rectangles with their
+    run-time marks `fixed` / `hard` / location reset: not part of the document), literally the same caches, hence the
+    same `area(m)` and `center(m)` for every name, and the same bounding box. -/
+theorem alloc_roundtrip_constructor (env : Alloc.Env α) (st : Alloc.Eps α) (a : Alloc.Allocation α)
+    (hv : Alloc.ValidAlloc st a) (hr : ∀ c ∈ a.cells, Alloc.validIdent c.rect.region = true) :
+    ∃ raw a', rawOfTree (writeAlloc (a.cells.map ofACell)).1 = some raw ∧
+      Alloc.mkAllocation env st raw = .ok (a', st) ∧
+      a'.cells = a.cells.map stripCell ∧
+      a'.cells.map (fun c => (c.rect.cx, c.rect.cy, c.rect.w, c.rect.h, c.rect.region, c.alloc, c.depth))
+        = a.cells.map (fun c => (c.rect.cx, c.rect.cy, c.rect.w, c.rect.h, c.rect.region, c.alloc, c.depth)) ∧
+      a'.stats = a.stats ∧ a'.bbox = a.bbox ∧
+      ∀ m, a'.areaOf m = a.areaOf m ∧ a'.centerOf m = a.centerOf m := by
+  obtain ⟨h1, h2⟩ := alloc_written_constructor env st a hv hr
+  refine ⟨_, _, h1, h2, rfl, ?_, rfl, rfl, fun m => ⟨rfl, rfl⟩⟩
+  simp [List.map_map, Function.comp_def, stripCell]
+
+/-- `rect_io.get_netlist` is tied to the allocation it was run on: for a valid allocation, the dictionary the emitter
+    accumulates (`rioMap`, whose entries `rectio_accepted` shows to be the modules of the emitted netlist) holds for a
+    module name exactly the allocation's cached `area(m)` and `center(m)` (`Σ ratio·area`,
+    `Σ ratio·area·centre / Σ ratio·area` by C02's `area_center_eq_sums`), and nothing for other names. -/
+theorem rectio_same_modules_as_allocation (st : Alloc.Eps α) (a : Alloc.Allocation α) (hv : Alloc.ValidAlloc st a)
+    (m : String) :
+    match rioLook (rioMap (a.cells.map ofACell)) m with
+    | none => m ∉ Alloc.modules a.cells ∧ a.areaOf m = none
+    | some (c, ar) => m ∈ Alloc.modules a.cells ∧ a.areaOf m = some ar ∧ a.centerOf m = some c :=
+  rectio_denotes_allocation st a hv m
+
 /-! ### FloorSet converter -/
 
 /-- `Netlist(write_yaml_FPEF())` for every well-formed instance (blocks with a non-empty decomposition into proper
@@ -799,6 +829,19 @@ example : LfWF (0 : ℚ) [⟨"A", 0, .f 4, [(.i 2, .i 2, .i 2, .i 2)]⟩, ⟨"B"
     simp only [List.mem_cons, List.mem_nil_iff, or_false] at he
     subst he
     exact ⟨by simp, by simp, by norm_num [Num.val]⟩
+
+
+/-- the hypotheses of `alloc_roundtrip_constructor` / `rectio_same_modules_as_allocation`: C02's witness allocation
+    with a FIXED cell (whose mark the document does not carry) is valid and its cells are tagged with identifiers. -/
+example : ∃ (a : Alloc.Allocation ℚ) (st : Alloc.Eps ℚ), Alloc.ValidAlloc st a ∧
+    (∀ c ∈ a.cells, Alloc.validIdent c.rect.region = true) ∧ ∃ c ∈ a.cells, c.rect.fixed = true := by
+  obtain ⟨a, st, h, hv⟩ := Alloc.exRawF_valid
+  have hb : (match Alloc.mkAllocation Alloc.exEnv ⟨-1, -1⟩ Alloc.exRawF with
+      | .ok (a, _) => a.cells.all (fun c => Alloc.validIdent c.rect.region) && a.cells.any (fun c => c.rect.fixed)
+      | .error _ => false) = true := by decide +kernel
+  rw [h] at hb
+  simp only [Bool.and_eq_true, List.all_eq_true, List.any_eq_true] at hb
+  exact ⟨a, st, hv, hb.1, hb.2⟩
 
 
 end FV.C19
